@@ -7,10 +7,10 @@
  * front/pop_front at the head, pop_back at the tail, begin/end iterators over the live window, empty() <=> no element; null
  * elements count as elements exactly as in std::deque).
  * Scenario (concrete per query): SA, SB = operation of thread a / b (1 push, 2 pop, 3 pop_specific, 4 two pushes), PRE tasks
- * pushed before through the real push. Symbolic: schedule, initial lane hints of the three parties, isolation tag of every
+ * pushed before through the real push. Symbolic: schedule, initial lane hints of the two threads (the pre-pushed tasks go where hint HM sends them), isolation tag of every
  * task and of the pop_specific caller (1 or 2).
  * Oracle: no task returned twice / before it was pushed; at quiescence, per lane: queue non-empty <=> population bit set, lane
- * mutex free; then a sequential drain through the real pop must obtain every task that was not popped yet (exactly once),
+ * mutex free; then a sequential drain through the real try_pop of every lane (the primitive pop() iterates; it honours the bitmap pre-check) must obtain every task that was not popped yet (exactly once),
  * leaving both lanes empty and population == 0; nobody spins forever. */
 #include "w.h"
 #include "vp.h"
@@ -23,6 +23,9 @@ typedef struct S_struct_std___Deque_iterator iter_t;
 #define NTASK (PRE + NP(SA) + NP(SB))
 #define NGET (((SA) == 2 || (SA) == 3) + ((SB) == 2 || (SB) == 3))
 #define QCAP 4
+#ifndef HM
+#define HM 0
+#endif
 stream_t S;
 task_t T0, T1, T2, T3;
 static task_t* const TP[4] = {&T0, &T1, &T2, &T3};
@@ -79,7 +82,7 @@ int main(void) {
   vp_stream_init(&S);
   VP_ASSERT(vp_stream_lanes(&S) == 2, "harness: expected 2 lanes");
   QP[0] = (deque_t*)vp_lane_queue(&S, 0); QP[1] = (deque_t*)vp_lane_queue(&S, 1); Q[0].node = Q[0].q; Q[1].node = Q[1].q;
-  hint_a = (u32)vp_nd_range(0, 1); hint_b = (u32)vp_nd_range(0, 1); hint_m = (u32)vp_nd_range(0, 1);
+  hint_a = (u32)vp_nd_range(0, 1); hint_b = (u32)vp_nd_range(0, 1); hint_m = HM;   /* concrete: a symbolic lane here makes the sequential retry loop of push unroll to the bound */
   for (int i = 0; i < NTASK; i++) vp_task_init(TP[i], vp_nd_range(1, 2));
   for (int i = 0; i < PRE; i++) { present[i] = 1; vp_seq_push(&S, &hint_m, TP[i]); }
   u64 iso_a = vp_nd_range(1, 2), iso_b = vp_nd_range(1, 2);
@@ -103,9 +106,9 @@ int main(void) {
     if (nonempty != (int)((pop >> l) & 1) || vp_lane_locked(&S, l)) consistent = 0;
   }
   VP_ASSERT((pop >> 2) == 0, "population bits beyond the lanes");
-  /* final drain through the real pop: everything that was pushed and not popped must come out, exactly once */
+  /* final drain through the real try_pop: everything that was pushed and not popped must come out, exactly once */
   if (consistent && (pop >> 2) == 0) {
-    for (int i = 0; i < NTASK; i++) { task_t* t = vp_seq_pop(&S, &hint_m); if (t) record(t); }
+    for (int l = 0; l < 2; l++) for (int i = 0; i < QCAP; i++) { task_t* t = vp_seq_try_pop(&S, l); if (t) record(t); }
     for (int i = 0; i < NTASK; i++) VP_ASSERT(got[i] == 1, "task lost: pushed, never popped, and the final drain does not find it");
     VP_ASSERT(vp_stream_population(&S) == 0 && Q[0].b == Q[0].e && Q[1].b == Q[1].e, "stream not empty after the drain");
   }
